@@ -613,29 +613,8 @@ def check_idle_and_initial_state(idx: Index, rep: Report, d: tr.Dispatch):
         ok = bool(ql) and norm(ql[0].value).replace(" ", "") == "cirq.LineQubit.range(source_circuit.width)"
         rep.decide(ok, rule, f, ql[0] if ql else f.node, text="qubit_list = LineQubit.range(width)", what="one line qubit per circuit qubit, index = qubit number",
                    reason=f"qubit_list = {norm(ql[0].value) if ql else '?'}")
-    # initial state forwarded to every simulate()
+    check_cirq_initial_state(idx, rep)
     rule = "K7.initial-state"
-    sim = idx.function(f"{TCIRQ}::CirqSimulator.simulate_circuit")
-    calls = [c for c in own_nodes(sim.node) if isinstance(c, ast.Call) and isinstance(c.func, ast.Attribute) and c.func.attr == "simulate"
-             and norm(c.func.value) == "cirq_simulator"]
-    rep.floor("cirq simulate calls", len(calls), 5)
-    for c in calls:
-        kws = {k.arg: norm(k.value) for k in c.keywords}
-        ok = kws.get("initial_state") in ("cirq_initial_statevector", "sv")
-        rep.decide(ok, rule, sim, c, text=f"simulate(..., initial_state={kws.get('initial_state')})",
-                   what="every cirq simulation starts from the user's initial statevector (or the state carried over from the previous piece)",
-                   reason="simulate() called without the initial state: a supplied initial_statevector is ignored on this path")
-    # sv initialised from the user's vector when given
-    for n in own_nodes(sim.node):
-        if isinstance(n, ast.If) and norm(n.test) == "initial_statevector is not None":
-            body_ok = any(isinstance(s, ast.Assign) and norm(s.targets[0]) == "sv" and norm(s.value) == "cirq_initial_statevector" for s in n.body)
-            if any(isinstance(s, ast.Assign) and norm(s.targets[0]) == "sv" for s in n.body + n.orelse):
-                rep.decide(body_ok, rule, sim, n, text="sv = cirq_initial_statevector when given", what="piecewise simulation starts from the user's vector",
-                           reason="piecewise simulation ignores the user's initial statevector")
-    civ = [n for n in own_nodes(sim.node) if isinstance(n, ast.Assign) and norm(n.targets[0]) == "cirq_initial_statevector"]
-    ok = bool(civ) and "initial_statevector" in norm(civ[0].value) and norm(civ[0].value).endswith("else 0")
-    rep.decide(ok, rule, sim, civ[0] if civ else sim.node, text="cirq_initial_statevector = user vector or |0...0>",
-               what="the default initial state is the all-zero computational basis state", reason=f"{norm(civ[0].value) if civ else '?'}")
     # Backend.simulate short-cut for empty circuits honours the initial statevector
     bs = idx.function(f"{BACKEND}::Backend.simulate")
     found = False
@@ -649,6 +628,50 @@ def check_idle_and_initial_state(idx: Index, rep: Report, d: tr.Dispatch):
                        what="an empty circuit applied to a user initial state returns that state", reason="empty-circuit shortcut ignores the initial statevector")
     if not found:
         rep.info(rule, bs, bs.node, text="no empty-circuit shortcut", reason="not present")
+
+
+
+
+def check_cirq_initial_state(idx: Index, rep: Report):
+    """every way the cirq backend simulates a circuit starts from the user's initial statevector (shared by C01 and C02)"""
+    # initial state forwarded to every simulate()
+    rule = "K7.initial-state"
+    sim = idx.function(f"{TCIRQ}::CirqSimulator.simulate_circuit")
+    calls = [c for c in own_nodes(sim.node) if isinstance(c, ast.Call) and isinstance(c.func, ast.Attribute) and c.func.attr == "simulate"
+             and norm(c.func.value) == "cirq_simulator"]
+    rep.floor("cirq simulate calls", len(calls), 5)
+    for c in calls:
+        kws = {k.arg: norm(k.value) for k in c.keywords}
+        ok = kws.get("initial_state") in ("cirq_initial_statevector", "sv")
+        rep.decide(ok, rule, sim, c, text=f"simulate(..., initial_state={kws.get('initial_state')})",
+                   what="every cirq simulation starts from the user's initial statevector (or the state carried over from the previous piece)",
+                   reason="simulate() called without the initial state: a supplied initial_statevector is ignored on this path")
+    # cirq's run() samples a circuit from |0...0> and takes no initial state: the circuit handed to it must prepare the user's state itself
+    runs = [c for c in own_nodes(sim.node) if isinstance(c, ast.Call) and isinstance(c.func, ast.Attribute) and c.func.attr in ("run", "run_sweep", "sample")
+            and norm(c.func.value) == "cirq_simulator"]
+    for c in runs:
+        circ_arg = norm(c.args[0]) if c.args else ""
+        prepared = False
+        for n in ast.walk(sim.node):
+            if isinstance(n, ast.If) and norm(n.test) == "initial_statevector is not None":
+                for x in ast.walk(ast.Module(body=n.body, type_ignores=[])):
+                    if isinstance(x, ast.Call) and isinstance(x.func, ast.Attribute) and x.func.attr in ("insert", "append") and norm(x.func.value) == circ_arg \
+                            and "StatePreparationChannel" in norm(x) and "cirq_initial_statevector" in norm(x) and n.lineno < c.lineno:
+                        prepared = x.func.attr == "insert" and norm(x.args[0]) == "0"
+        rep.decide(prepared, rule, sim, c, text=f"{norm(c.func)}({circ_arg}, ...): the sampled circuit prepares the initial state",
+                   what="every cirq simulation starts from the user's initial statevector; run() cannot be given one, so the circuit it samples begins with a preparation of that state",
+                   reason=f"`{norm(c)[:70]}` samples `{circ_arg}` from |0...0>: a supplied initial_statevector is ignored on this path (finite n_shots with saved mid-circuit measurements)")
+    # sv initialised from the user's vector when given
+    for n in own_nodes(sim.node):
+        if isinstance(n, ast.If) and norm(n.test) == "initial_statevector is not None":
+            body_ok = any(isinstance(s, ast.Assign) and norm(s.targets[0]) == "sv" and norm(s.value) == "cirq_initial_statevector" for s in n.body)
+            if any(isinstance(s, ast.Assign) and norm(s.targets[0]) == "sv" for s in n.body + n.orelse):
+                rep.decide(body_ok, rule, sim, n, text="sv = cirq_initial_statevector when given", what="piecewise simulation starts from the user's vector",
+                           reason="piecewise simulation ignores the user's initial statevector")
+    civ = [n for n in own_nodes(sim.node) if isinstance(n, ast.Assign) and norm(n.targets[0]) == "cirq_initial_statevector"]
+    ok = bool(civ) and "initial_statevector" in norm(civ[0].value) and norm(civ[0].value).endswith("else 0")
+    rep.decide(ok, rule, sim, civ[0] if civ else sim.node, text="cirq_initial_statevector = user vector or |0...0>",
+               what="the default initial state is the all-zero computational basis state", reason=f"{norm(civ[0].value) if civ else '?'}")
 
 
 # ---------------------------------------------------------------------------------------------------
